@@ -239,9 +239,9 @@ def sub_enumerate(ctx):
         must_reject(e_, "str", s, "strain")
 
 
-def sub_random_spellings(ctx):
-    """Hypothesis over digit strings / ints of any length 0..6: differential against the own
-    canonicaliser (accept <=> well-formed 2- or 4-digit in-range spelling, and then same class)."""
+def random_spellings_target(ctx):
+    """Digit strings / ints of any length 0..6: differential against the own canonicaliser
+    (accept <=> well-formed 2- or 4-digit in-range spelling, and then same class)."""
     import cij.util as U
     from hypothesis import strategies as st
 
@@ -274,11 +274,28 @@ def sub_random_spellings(ctx):
                 raise PropertyViolation("C10/voigt-view", "%r -> %r expected %r" % (val, k.voigt, want), case)
         ctx.case(case, True, classes=["random-valid" if want else "random-invalid"])
 
-    ctx.run_given(body, digits, st.booleans(), max_examples=ctx.n(300, 20000))
+    return body, (digits, st.booleans())
+
+
+def sub_random_spellings(ctx):
+    body, sts = random_spellings_target(ctx)
+    ctx.run_given(body, *sts, max_examples=ctx.n(300, 20000))
+
+
+def fuzz_targets(ctx):
+    return {"random_spellings": random_spellings_target(ctx)}
+
+
+def sub_fuzz(ctx):
+    """thorough tier: coverage-guided search (atheris) through the same differential oracle"""
+    if ctx.quick or not ctx.primary:
+        return
+    import sys
+    ctx.run_fuzz(sys.modules[__name__], "random_spellings", runs=200000, max_time=60)
 
 
 def subchecks(ctx):
-    return [("enumerate", sub_enumerate), ("random_spellings", sub_random_spellings)]
+    return [("enumerate", sub_enumerate), ("random_spellings", sub_random_spellings), ("fuzz", sub_fuzz)]
 
 
 def replay(ctx, payload):
